@@ -154,6 +154,36 @@ func c05SetVersion(msg any, v kmip.ProtocolVersion) {
 	}
 }
 
+// c05Piecewise writes a request / response message through Encoder.Struct with the header and the batch
+// items handed over one by one (nil: not a message type handled here).
+func c05Piecewise(m any) (out []byte, panicked string) {
+	defer func() {
+		if r := recover(); r != nil {
+			panicked = fmt.Sprint(r)
+		}
+	}()
+	enc := ttlv.NewTTLVEncoder()
+	switch msg := m.(type) {
+	case *kmip.RequestMessage:
+		enc.Struct(kmip.TagRequestMessage, func(e *ttlv.Encoder) {
+			e.Any(&msg.Header)
+			for i := range msg.BatchItem {
+				e.TagAny(kmip.TagBatchItem, &msg.BatchItem[i])
+			}
+		})
+	case *kmip.ResponseMessage:
+		enc.Struct(kmip.TagResponseMessage, func(e *ttlv.Encoder) {
+			e.Any(&msg.Header)
+			for i := range msg.BatchItem {
+				e.TagAny(kmip.TagBatchItem, &msg.BatchItem[i])
+			}
+		})
+	default:
+		return nil, ""
+	}
+	return append([]byte{}, enc.Bytes()...), ""
+}
+
 func driveC05(c *h.Ctx) error {
 	c.Rule("a case is a KMIP message of the coverage plan (every operation both directions, objects, attributes, ...) generated at version V in 1.0..1.4 with ALL its version-gated elements populated whether or not V allows them (61 gated elements in 20 structures); per case: encode at V, compare with the encoding of the message stripped by the pinned table, decode; plus fully populated 1.4 encodings re-read under header versions 1.0-1.3; non-trivial = at least one gated element was populated")
 	pins, err := c05LoadPins(c.Verif)
@@ -225,6 +255,18 @@ func driveC05(c *h.Ctx) error {
 				sig = "C05/gate/element-allowed-at-version-is-missing"
 			}
 			c.Fail(sig, fmt.Sprintf("at version %s the encoding (%d bytes) differs from the encoding of the message stripped to the elements the pinned table allows (%d bytes)", cas.Ver, len(b1), len(b2)), caseJSON)
+		}
+		// the same message written piece by piece through the public Encoder API (header through its own
+		// Any call, then each batch item): the version the header sets gates everything written after it
+		if pw, pp := c05Piecewise(m); pp == "" && pw != nil {
+			c.Count("piecewise-encoding")
+			if !bytes.Equal(pw, b2) {
+				sig := "C05/gate/piecewise/element-not-allowed-at-version-is-emitted"
+				if len(pw) < len(b2) {
+					sig = "C05/gate/piecewise/element-allowed-at-version-is-missing"
+				}
+				c.Fail(sig, fmt.Sprintf("at version %s the message written piece by piece (Encoder.Struct{Any(header); TagAny(item)...}, %d bytes) differs from the encoding of the message stripped to the elements the pinned table allows (%d bytes)", cas.Ver, len(pw), len(b2)), caseJSON)
+			}
 		}
 		// the same in the other encodings: the gate is the encoder's, not the binary writer's
 		for _, tf := range []struct {
